@@ -55,6 +55,17 @@ func monoFromBits(w, h int, bits []byte) *monogfx.MonoImg {
 	return img
 }
 
+// a MonoImg that has been in use: a 96x80 canvas with every pixel lit, text state and colours set (callers convert frame
+// after frame into one object; the result must not depend on what the object held)
+func usedDestination() *monogfx.MonoImg {
+	d := &monogfx.MonoImg{}
+	d.NewImage(96, 80)
+	d.FillRect(0, 0, 96, 80, true)
+	d.SetFont(1, true)
+	d.SetTextSize(2, 2)
+	return d
+}
+
 func (e *pixExec) Exec(cmd string, a []string) string {
 	res := ""
 	p := guarded(func() {
@@ -80,6 +91,12 @@ func (e *pixExec) Exec(cmd string, a []string) string {
 			back := &monogfx.MonoImg{}
 			back.CreateFromImage(im)
 			res = fmt.Sprintf("%s %d %d %s", imgTok(im), back.Width, back.Height, hx(back.GetImgSlice()))
+			if used := usedDestination(); true { // the same conversion into an object that already holds an image
+				used.CreateFromImage(im)
+				if r2 := fmt.Sprintf("%s %d %d %s", imgTok(im), used.Width, used.Height, hx(used.GetImgSlice())); r2 != res {
+					res = r2
+				}
+			}
 		case "pix.fromimg":
 			w, h := atoi(a[0]), atoi(a[1])
 			im := image.NewRGBA(image.Rect(0, 0, w, h))
@@ -87,6 +104,12 @@ func (e *pixExec) Exec(cmd string, a []string) string {
 			back := &monogfx.MonoImg{}
 			back.CreateFromImage(im)
 			res = fmt.Sprintf("%d %d %s", back.Width, back.Height, hx(back.GetImgSlice()))
+			if used := usedDestination(); true {
+				used.CreateFromImage(im)
+				if r2 := fmt.Sprintf("%d %d %s", used.Width, used.Height, hx(used.GetImgSlice())); r2 != res {
+					res = r2
+				}
+			}
 		case "pix.gfx":
 			t, W, H, tw, th := atoi(a[0]), atoi(a[1]), atoi(a[2]), atoi(a[3]), atoi(a[4])
 			data := unhx(a[5])
